@@ -560,7 +560,7 @@ class Pass2(CompilePass):
 
         try:
             node.value.eval()
-        except (OverflowError, ZeroDivisionError):
+        except (OverflowError, ZeroDivisionError, ValueError):
             # a constant expression that cannot be evaluated
             raise CompileError(
                 EC.INVALID_CONSTANT,
